@@ -226,25 +226,79 @@ Qed.
 
 Definition not_destroying (u : Z) (h : hop) : Prop := match h with HDestroy u' => u' <> u | _ => True end.
 
+(* ------------------------------------------------------------------ steps that are made of Register steps *)
+Lemma step_make_cases : forall st k v o n mat l,
+  step st (HMake k v o n mat l) = st \/
+  exists s, made_secret k mat l = Ok s /\ step st (HMake k v o n mat l) = step st (HRegister v o n s (made_attrs k l)).
+Proof.
+  intros st k v o n mat l. unfold step. unfold srv_make. destruct (made_secret k mat l) as [s|] eqn:M.
+  - right. exists s. split; [reflexivity|]. rewrite bind_ok. reflexivity.
+  - left. rewrite bind_err. reflexivity.
+Qed.
+
+Lemma make_pair_inv : forall v o n fu mu fr mr lc lu lr st st' u1 u2,
+  srv_make_pair v o n fu mu fr mr lc lu lr st = Ok (st', (u1, u2)) ->
+  exists su sr st1,
+    pair_secret CPub fu mu (resolve lc lu) = Ok su /\ pair_secret CPriv fr mr (resolve lc lr) = Ok sr /\
+    srv_register v o n su (resolve lc lu) st = Ok (st1, u1) /\ srv_register v o n sr (resolve lc lr) st1 = Ok (st', u2).
+Proof.
+  intros v o n fu mu fr mr lc lu lr st st' u1 u2 H. unfold srv_make_pair in H.
+  case_if H. cbv zeta in H.
+  destruct (pair_secret CPub fu mu (resolve lc lu)) as [su|] eqn:P1; [rewrite bind_ok in H|rewrite bind_err in H; discriminate H].
+  destruct (pair_secret CPriv fr mr (resolve lc lr)) as [sr|] eqn:P2; [rewrite bind_ok in H|rewrite bind_err in H; discriminate H].
+  case_if H.
+  destruct (srv_register v o n su (resolve lc lu) st) as [[st1 x1]|] eqn:R1; [rewrite bind_ok in H|rewrite bind_err in H; discriminate H].
+  cbv beta in H. simpl fst in H. simpl snd in H.
+  destruct (srv_register v o n sr (resolve lc lr) st1) as [[st2 x2]|] eqn:R2; [rewrite bind_ok in H|rewrite bind_err in H; discriminate H].
+  cbv beta in H. simpl fst in H. simpl snd in H. injection H as <- <- <-.
+  exists su, sr, st1. repeat split; assumption.
+Qed.
+
+Lemma step_pair_cases : forall st v o n fu mu fr mr lc lu lr,
+  step st (HMakePair v o n fu mu fr mr lc lu lr) = st \/
+  exists su sr, step st (HMakePair v o n fu mu fr mr lc lu lr) =
+                step (step st (HRegister v o n su (resolve lc lu))) (HRegister v o n sr (resolve lc lr)).
+Proof.
+  intros st v o n fu mu fr mr lc lu lr. unfold step.
+  destruct (srv_make_pair v o n fu mu fr mr lc lu lr st) as [[st' [u1 u2]]|] eqn:H; [|left; reflexivity].
+  right. destruct (make_pair_inv _ _ _ _ _ _ _ _ _ _ _ _ _ _ H) as (su & sr & st1 & _ & _ & R1 & R2).
+  exists su, sr. rewrite R1. rewrite R2. reflexivity.
+Qed.
+
+Lemma frame_reg : forall st v o n s' l u s,
+  store_ok st ->
+  (exists r, find_row u (s_rows st) = Some r /\ core_of_row r = Ok s) ->
+  store_ok (step st (HRegister v o n s' l)) /\
+  (exists r, find_row u (s_rows (step st (HRegister v o n s' l))) = Some r /\ core_of_row r = Ok s).
+Proof.
+  intros st v o n s' l u s F [r [Fr Cr]]. simpl.
+  destruct (srv_register v o n s' l st) as [[st' u']|] eqn:R; [|split; [exact F|exists r; split; assumption]].
+  destruct (register_store_ok _ _ _ _ _ _ _ _ F R) as [F' _]. split; [exact F'|].
+  unfold srv_register in R. inv_bind R. injection R as <- <-. simpl. exists r. split; [|exact Cr].
+  apply find_row_app_old. exact Fr.
+Qed.
+
 (* frame lemma: one step of any other operation leaves what Get answers for u unchanged *)
 Lemma step_frame : forall st h u s,
   store_ok st -> not_destroying u h ->
   (exists r, find_row u (s_rows st) = Some r /\ core_of_row r = Ok s) ->
   store_ok (step st h) /\ (exists r, find_row u (s_rows (step st h)) = Some r /\ core_of_row r = Ok s).
 Proof.
-  intros st h u s F Nd [r [Fr Cr]]. destruct h as [v o n s' l| |u'|u'| |]; simpl.
-  - destruct (srv_register v o n s' l st) as [[st' u']|] eqn:R; [|split; [exact F|exists r; split; assumption]].
-    destruct (register_store_ok _ _ _ _ _ _ _ _ F R) as [F' _]. split; [exact F'|].
-    unfold srv_register in R. inv_bind R. injection R as <- <-. simpl. exists r. split; [|exact Cr].
-    apply find_row_app_old. exact Fr.
-  - split; [exact F|exists r; split; assumption].
-  - split; [unfold store_ok in *; simpl; apply update_row_bound; exact F|].
+  intros st h u s F Nd Inv. destruct h as [v o n s' l| |u'|u'| | |k v o n mat l|v o n fu mu fr mr lc lu lr].
+  - apply frame_reg; assumption.
+  - simpl. split; assumption.
+  - destruct Inv as [r [Fr Cr]]. simpl. split; [unfold store_ok in *; simpl; apply update_row_bound; exact F|].
     simpl. rewrite find_update_row. rewrite Fr. eexists. split; [reflexivity|].
     destruct (u =? u'); [|exact Cr]. fold (activate_row r). rewrite core_of_activate. exact Cr.
-  - split; [unfold store_ok in *; simpl; apply remove_row_bound; exact F|].
+  - destruct Inv as [r [Fr Cr]]. simpl. split; [unfold store_ok in *; simpl; apply remove_row_bound; exact F|].
     simpl. rewrite find_remove_row by (simpl in Nd; congruence). exists r. split; assumption.
-  - split; [exact F|exists r; split; assumption].
-  - split; [unfold store_ok in *; simpl; eapply Forall_impl; [|exact F]; simpl; intros; lia|exists r; split; assumption].
+  - simpl. split; assumption.
+  - destruct Inv as [r [Fr Cr]]. simpl. split; [unfold store_ok in *; simpl; eapply Forall_impl; [|exact F]; simpl; intros; lia|exists r; split; assumption].
+  - destruct (step_make_cases st k v o n mat l) as [E|[s0 [_ E]]]; rewrite E; [split; assumption|].
+    apply frame_reg; assumption.
+  - destruct (step_pair_cases st v o n fu mu fr mr lc lu lr) as [E|[su [sr E]]]; rewrite E; [split; assumption|].
+    destruct (frame_reg st v o n su (resolve lc lu) u s F Inv) as [F1 Inv1].
+    apply frame_reg; assumption.
 Qed.
 
 Lemma run_frame : forall h st u s,
@@ -274,11 +328,16 @@ Lemma store0_ok : store_ok store0. Proof. constructor. Qed.
 Lemma run_store_ok : forall h st, store_ok st -> store_ok (run st h).
 Proof.
   induction h as [|x h IH]; intros st F; simpl; [exact F|]. apply IH.
-  destruct x as [v o n s' l| |u'|u'| |]; simpl; try exact F.
-  - destruct (srv_register v o n s' l st) as [[st' u']|] eqn:R; [|exact F]. apply (register_store_ok _ _ _ _ _ _ _ _ F R).
+  assert (Reg : forall st0 v o n s' l, store_ok st0 -> store_ok (step st0 (HRegister v o n s' l))).
+  { intros st0 v o n s' l F0. simpl. destruct (srv_register v o n s' l st0) as [[st' u']|] eqn:R; [|exact F0].
+    apply (register_store_ok _ _ _ _ _ _ _ _ F0 R). }
+  destruct x as [v o n s' l| |u'|u'| | |k v o n mat l|v o n fu mu fr mr lc lu lr]; try (simpl; exact F).
+  - apply Reg. exact F.
   - unfold store_ok in *; simpl; apply update_row_bound; exact F.
   - unfold store_ok in *; simpl; apply remove_row_bound; exact F.
   - unfold store_ok in *; simpl; eapply Forall_impl; [|exact F]; simpl; intros; lia.
+  - destruct (step_make_cases st k v o n mat l) as [E|[s0 [_ E]]]; rewrite E; [exact F|apply Reg; exact F].
+  - destruct (step_pair_cases st v o n fu mu fr mr lc lu lr) as [E|[su [sr E]]]; rewrite E; [exact F|apply Reg; apply Reg; exact F].
 Qed.
 
 (* a restart changes nothing that is stored *)
